@@ -18,6 +18,25 @@ CHECKS = {
             "against a global-array model",
             "Generated configurations x transposes x schedules, every rank's block compared bit-for-bit with the "
             "model; held-on-everything-explored, not absence.", "3/C01", MPI_NOTE),
+    "C02": ("exhaustive enumeration of all 1<=p<=n<=N through the real Layout constructor + Hypothesis "
+            "multi-dimensional layouts + Grid accessors on simulated worlds, against pure tiling predicates "
+            "and the global-array model",
+            "Finite box decided exhaustively (exhaustive:true for that sub-check); beyond it generated search.",
+            "3/C02", MPI_NOTE),
+    "C03": ("property-based testing (Hypothesis) of LayoutSwapper histories on a simulated MPI world "
+            "against a global-array model",
+            "Generated swapper configurations x histories x schedules; every step compared bit-for-bit with "
+            "the model on every rank; replication factor checked.", "3/C03", MPI_NOTE),
+    "C04": ("model-based stateful testing: exhaustive enumeration of all operation histories up to a bound "
+            "on fixed configurations + Hypothesis-generated histories, real Grid vs numpy model after every step",
+            "Histories up to the stated length are decided exhaustively on three configurations; longer "
+            "histories and other configurations by generated search.", "3/C04", MPI_NOTE),
+    "C20": ("exhaustive enumeration of a finite box + Hypothesis far beyond it, brute-force divisor oracle, "
+            "line-event budget for termination",
+            "All triples of the box are decided (exhaustive:true for that sub-check); termination as a "
+            "bounded claim (line budget).", "3/C20",
+            "Trusted base: brute-force divisor enumeration (5 lines), sys.settrace line counting; simulated MPI "
+            "for the transposes on the chosen grid."),
 }
 
 NOT_YET = {}
